@@ -48,7 +48,8 @@ def languages():
 
 
 COMMON_LANGS = ["en", "fr", "ja", "em", "no", "de", "ru", "ar", "zh-CN", "en-pirate", "ht", "sr-Latn"]
-WORDS = ["alpha", "beta", "<a>", "<b>", "Given", "Soit", "|", "\"\"\"", "@x", "#", "ünï", "日本", "🎬", ":", "Feature:", "x y", "\\", "<", ">", "*"]
+HEADERS = ["a", "b", "a", "b", "a b", "a(b", "a.b", "[", "a\\\\", "$1", "é", "a|b".replace("|", "\\|"), "<a>", "*", "a+", "^a", "(?i)A"]
+WORDS = ["alpha", "beta", "<a>", "<b>", "<a(b>", "<a.b>", "<axb>", "<[>", "<a\\>", "<$1>", "<a b>", "<A>", "Given", "Soit", "|", "\"\"\"", "@x", "#", "ünï", "日本", "🎬", ":", "Feature:", "x y", "\\", "<", ">", "*"]
 
 
 def _kw(rng, spec, key):
@@ -139,9 +140,10 @@ def gen_doc(rng, default="en", force_lang=None):
                 L.append(ind(i + 2) + _kw(rng, spec, "examples") + ":" + (" " + _name(rng) if rng.random() < 0.5 else ""))
                 description(i + 4)
                 if rng.random() < 0.9:
-                    L.append(ind(i + 4) + "| a | b |")
+                    h1, h2 = ("a", "b") if rng.random() < 0.8 else (HEADERS[rng.randrange(len(HEADERS))], HEADERS[rng.randrange(len(HEADERS))])
+                    L.append(ind(i + 4) + "| %s | %s |" % (h1, h2))
                     for _ in range(rng.choice([0, 1, 2, 3])):
-                        L.append(ind(i + 4) + "| %s | %s |" % (rng.choice(["1", "x y", "", "\\\\", "$1", "\\|"]), rng.choice(["2", "<a>", "é", "🎬"])))
+                        L.append(ind(i + 4) + "| %s | %s |" % (rng.choice(["1", "x y", "", "\\\\", "$1", "\\|", "\\1", "\\g<0>", "a\\"]), rng.choice(["2", "<a>", "é", "🎬", "<b>"])))
 
     def background(i):
         blanks()
